@@ -36,7 +36,17 @@ def suite_valid(ctx):
                 s.count('dtc-group:' + c.group)
             if got != 'ok ' + c.expect:
                 s.fail({'site': c.site, 'input': line, 'generator': name, 'observed': got, 'required': 'ok ' + c.expect})
-            elif name == 'rdbi' and c.expect != 'rdbi -':
+                continue
+            if rng.random() < 0.3:
+                # decode, let the caller edit what it was given, decode the same reply again (same client / a new one)
+                same = rng.random() < 0.5
+                got2 = declib.run_reply_again(c, c.good, same)
+                s.evaluations += 1
+                s.count('again:' + ('same-client' if same else 'new-client'))
+                if got2 is not None and got2 != 'ok ' + c.expect:
+                    s.fail({'site': c.site, 'input': line, 'generator': name, 'class': 'second decode after the first result was edited (%s)' % ('same client' if same else 'new client'),
+                            'observed': got2, 'required': 'ok ' + c.expect})
+            if name == 'rdbi' and c.expect != 'rdbi -':
                 # the composite read_data_by_identifier_first hands back the value of the first identifier asked for
                 import copy
                 from .. import declib as _d
